@@ -22,6 +22,7 @@ ASSUMPTIONS = [
     "values are in range for their type; strings are 7-bit ASCII; signalling NaNs are not generated",
     "enum values travel as their numeric enumerator value",
     "zero-length fixed arrays and zero-width types are not generated",
+    "known finding serde-signed-min-decodes-positive is matched by its defect model (only signed leaves holding -2^(N-1) differ, and they come back as +2^(N-1))",
 ]
 
 
@@ -32,7 +33,7 @@ def shards(tier):
 def check_case(run, fcp, sch, name, v, text, sig=None):
     from fcp import serde
 
-    case = {"schema": text, "struct": name, "value": v}
+    case = {"schema": text, "struct": name, "value": v, "description": sch.decls if sch is not None else None}
     try:
         b = serde.encode(fcp, name, v)
     except Exception as e:
@@ -47,6 +48,11 @@ def check_case(run, fcp, sch, name, v, text, sig=None):
         return
     run.count("decode_calls")
     if not ref.same(d, v):
+        if sch is not None:
+            model, n = CC.signed_min_model(sch, ("struct", name), v)
+            if n and ref.same(d, model):
+                run.known_finding(CC.K_SIGNED_MIN, "decode(encode(v)) returns +2^(N-1) for %d signed leaves holding -2^(N-1)" % n, {"struct": name, "value": v, "decoded": d})
+                return
         case["bytes"] = bytes(b)
         case["decoded"] = d
         run.violation("decode(encode(v)) != v", case)
@@ -85,4 +91,5 @@ def replay(run, case):
     if res.is_err():
         run.violation("front end rejected the schema: %r" % (res.err(),), case)
         return
-    check_case(run, res.unwrap(), None, case["struct"], case["value"], case["schema"])
+    sch = S.Sch(case["description"]) if case.get("description") else None
+    check_case(run, res.unwrap(), sch, case["struct"], case["value"], case["schema"])
